@@ -135,6 +135,28 @@ def Section.pop (s : Section) (i : Int) : Except Err Section :=
   | some j => .ok { s with items := s.items.eraseIdx j }
   | none => .error .indexError
 
+/-- the edit operations of C13/C15 on one section; a failing operation (KeyError/IndexError) leaves the section unchanged -/
+inductive Op where
+  | append (o u v d : Str)
+  | insert (i : Int) (o u v d : Str)
+  | del (k : Key)
+  | pop (i : Int)
+  | setItem (k : Key) (o u v d : Str)
+  | setValue (k : Key) (v : Str)
+  | getAdd (m dflt : Str)
+deriving Repr
+
+def Section.step (s : Section) : Op → Section
+  | .append o u v d => s.append (mkItem o u v d)
+  | .insert i o u v d => s.insert i (mkItem o u v d)
+  | .del k => match s.delitem k with | .ok s' => s' | .error _ => s
+  | .pop i => match s.pop i with | .ok s' => s' | .error _ => s
+  | .setItem k o u v d => s.setItem k (mkItem o u v d)
+  | .setValue k v => match s.setValue k v with | .ok s' => s' | .error _ => s
+  | .getAdd m dflt => (s.get m dflt true).2
+
+def Section.run (s : Section) (ops : List Op) : Section := ops.foldl Section.step s
+
 def Section.keys (s : Section) : List Str := s.items.map (·.session)
 def Section.origs (s : Section) : List Str := s.items.map (·.orig)
 
